@@ -17,13 +17,16 @@ META = {
     "level": "model_checking",
     "text": "TLC enumerates every string of length <= 6 (quick) / 7 over {a, b, delimiter}, every sequence of <= 2-3 (quick) / 3-4 "
             "editing operations (append, prepend, append_unique, insert, insert_element, delete) and every argument vector of "
-            "<= 4 (quick) / 5 tokens with three option tables; each is run through the real parsec_argv_* / "
+            "<= 4 (quick) / 5 tokens with three option tables, plus strings whose fields have lengths around and beyond the "
+            "128-byte field buffer (126-130, 255-257, 300) in first / middle / last position and command lines with groups of "
+            "2-3 combined short names where 0, 1 or 2 of the letters take 1-2 parameters; each is run through the real parsec_argv_* / "
             "parsec_cmd_line_* functions and TLC validates the results: split/join round trip (with and without empty fields), "
             "exact positions changed by insert/delete, copy, count, join_range; parsed option instances with their parameters, "
             "tail and error flag.",
     "note": "Token alphabet for the parser: three long options (declared or not, 0-2 parameters), one short option, two plain "
-            "words and '--'; ignore_unknown = true. The caller's argc after parsec_argv_delete is only checked for ranges inside "
-            "the vector. Multi-letter short option groups (split_shorts), MCA-bound options and the usage message are not "
+            "words, '--' and groups of the letters a-c; ignore_unknown = true. After a parse error inside/after an expanded group "
+            "only the error flag and the instances are compared, not the tail. The caller's argc after parsec_argv_delete is only checked for ranges inside "
+            "the vector. MCA-bound options and the usage message are not "
             "covered. Trusted: TLC, the harness' string encoding.",
     "technique": "TLA+ spec inputs/behaviours (TLC exhaustive enumeration) replayed on real code + trace validation",
 }
@@ -35,6 +38,18 @@ def enc_str(s):
 
 def enc_vec(v):
     return "|".join(enc_str(s) for s in v) if v else "-"
+
+
+def field_lens(quick):
+    """Field-length vectors of the long-field family: lengths around ARGSIZE (128, the stack buffer of
+    parsec_argv_split_inter) and a few hundred, in first / middle / last position, next to empty and short fields."""
+    import itertools
+    out = set()
+    for n in (1, 2, 3):
+        out |= set(itertools.product((0, 1, 127, 128, 129), repeat=n))
+    for big in (126, 130, 255, 256, 257, 300) + (() if quick else (512, 1000, 4096)):
+        out |= {(big,), (big, 2), (2, big), (2, big, 1), (big, 0, 3), (0, big, 0), (big, big), (3, 128, big)}
+    return sorted(out)
 
 
 def run_harness(ctx, exe, mode, lines, tag, extra=()):
@@ -54,7 +69,8 @@ def run(ctx):
     total = 0
 
     # ---- split / join over every string ---------------------------------------------------------------------------
-    mod, cfg = mcgen.write_mc(d, "str", "ArgvStr", {"Chars": {0, 1, 2}, "MaxStr": 6 if q else 7},
+    mod, cfg = mcgen.write_mc(d, "str", "ArgvStr", {"Chars": {0, 1, 2}, "MaxStr": 6 if q else 7,
+                                                    "FieldLens": mcgen.Raw(mcgen.tla(set(field_lens(q))))},
                               invariants=("RoundTrip", "RoundTripNoEmpty", "NoDelimInside", "Emit"))
     r = ctx.tlc_check(d, mod, cfg, must_cover=("Check",), workers=4, timeout=1500)
     strs = sorted(set(enc_str(o["s"]) for o in (tlc._parse_tla_string_list(l) for l in r.printed) if o is not None))
@@ -63,6 +79,7 @@ def run(ctx):
     if rc != 0:
         exs.append([{"e": "Crash", "rc": str(rc), "input": strs[len(evs)] if len(evs) < len(strs) else ""}])
     ctx.extra["strings"] = len(strs)
+    ctx.extra["strings_with_long_fields"] = sum(1 for x in strs if len(x) > 200)
     total += len(strs)
     if exs:
         ctx.sample({"string": strs[len(strs) // 2], "event": exs[len(exs) // 2][0]})
@@ -93,8 +110,19 @@ def run(ctx):
 
     # ---- command lines ------------------------------------------------------------------------------------------------
     tables = "{[np |-> <<0, 1, -1>>, short |-> 0], [np |-> <<2, 0, -1>>, short |-> 1], [np |-> <<1, 2, 0>>, short |-> 3]}"
-    c = {"NOpt": 3, "MaxArgs": 4 if q else 5, "Tables": mcgen.Raw(tables)}
-    mod, cfg = mcgen.write_mc(d, "cmd", "CmdLine", c, invariants=("Accounted", "Emit"))
+    # second family: groups of short names ("-ab", "-acb", ..) over tables where every declared option k has the letter k as
+    # short name and 0, 1 or 2 of the letters take 1-2 parameters; followed by every sequence of plain words / "--"
+    tables2 = ("{[np |-> <<1, 2, 0>>, short |-> -1], [np |-> <<0, 0, 0>>, short |-> -1], [np |-> <<2, 0, 1>>, short |-> -1], "
+               "[np |-> <<1, -1, 0>>, short |-> -1]}")
+    perms = {12, 13, 21, 23, 31, 32, 11, 22, 33, 123, 132, 213, 231, 312, 321}
+    groups = perms if q else perms | {100 * a + 10 * b + c_ for a in (1, 2, 3) for b in (1, 2, 3) for c_ in (1, 2, 3)}
+    argvs2 = ("GroupArgvs({<<>>, <<3>>}, %s, {TP, TQ, TEnd}, 3) \\cup GroupArgvs({<<>>}, %s, {TP, TQ}, %d) "
+              "\\cup GroupArgvs({<<>>}, %s, {TP, TQ, LBase + 2}, %d)"
+              % (mcgen.tla({1000 + g for g in groups}), mcgen.tla({1000 + g for g in groups}), 4 if q else 5,
+                 mcgen.tla({1000 + g for g in (12, 21, 132, 312)}), 3 if q else 4))
+    c = {"NOpt": 3, "Tables": mcgen.Raw(tables), "ArgvSet": mcgen.Raw("AllArgvs(%d)" % (4 if q else 5)),
+         "Tables2": mcgen.Raw(tables2), "ArgvSet2": mcgen.Raw(argvs2)}
+    mod, cfg = mcgen.write_mc(d, "cmd", "CmdLine", c, invariants=("Accounted", "NoPlaceholder", "GroupOfFlags", "Emit"))
     r = ctx.tlc_check(d, mod, cfg, must_cover=("ParseStep",), workers=4, timeout=1500)
     ins = [o for o in (tlc._parse_tla_string_list(l) for l in r.printed) if o]
     lines = sorted(set("%s %s %d" % (",".join(str(t) for t in o["argv"]) or "-", ",".join(str(n) for n in o["np"]), o["short"]) for o in ins))
@@ -103,9 +131,12 @@ def run(ctx):
     if rc != 0:
         exs.append([{"e": "Crash", "rc": str(rc), "input": lines[len(evs)] if len(evs) < len(lines) else ""}])
     ctx.extra["command_lines"] = len(lines)
+    ctx.extra["command_lines_with_short_name_groups"] = sum(1 for x in lines if x.endswith(" -1"))
     total += len(lines)
     if exs:
         ctx.sample({"command_line": lines[len(lines) // 2], "event": exs[len(exs) // 2][0]})
+        ctx.sample(next(({"command_line": ln, "event": e[0]} for ln, e in zip(lines, exs) if ln.startswith("1132,") and ln.endswith("1,2,0 -1")),
+                        {"command_line": lines[-1], "event": exs[-1][0]}))
     fails += [("command line parsing", "CmdLineTrace", f)
               for f in ctx.validate("Util", "CmdLineTrace", "CmdLineTrace.cfg", exs, batch=4000, timeout=1500)]
 
